@@ -214,10 +214,12 @@ func (g *G) TS() model.TS {
 
 var ReservedTexts = []string{"null", "true", "false", "nan", "$5", "$0", "$ion", "$ion_1_0", "$ion_symbol_table", "name", "version",
 	"imports", "symbols", "max_id", "", "+", "-", "//", "]", "+inf", "-inf", "null.int", "$", "$$", "a b", "a'b", "a\"b", "a\\b",
-	"$10", "$007", "$+5", "$-5", "inf", "_", "x1", "1x", "2020T", "a::b", "{", "}", "*", "/*", "*/", "...", "é", "日本", "😀"}
+	"$10", "$007", "$+5", "$-5", "inf", "_", "x1", "1x", "2020T", "a::b", "{", "}", "*", "/*", "*/", "...", "é", "日本", "😀",
+	// letters outside ASCII: an identifier may only consist of ASCII letters, digits, $ and _
+	"você", "três", "õ", "µ", "ªº", "κε", "ек", "número", "Ångström", "ñ_1", "ǅ", "ß", "a­b", "ª", "xµ", "_º"}
 
 var runePool = []rune{'a', 'b', 'z', 'A', 'Z', '0', '9', '_', '$', ' ', '\'', '"', '\\', '/', '?', '\n', '\r', '\t', 0, 7, 8, 11, 12, 0x1f, 0x7f,
-	0x80, 0xe9, 0xff, 0x100, 0x7ff, 0x800, 0x2248, 0xfffd, 0xffff, 0x10000, 0x1f600, 0x10ffff, '{', '}', '[', ']', '(', ')', ',', ':', '.', '+', '-', '*', '#'}
+	0x80, 0xaa, 0xb5, 0xba, 0xc0, 0xd7, 0xea, 0xf5, 0xfa, 0x3b5, 0x3ba, 0x435, 0x43a, 0xe9, 0xff, 0x100, 0x7ff, 0x800, 0x2248, 0xfffd, 0xffff, 0x10000, 0x1f600, 0x10ffff, '{', '}', '[', ']', '(', ')', ',', ':', '.', '+', '-', '*', '#'}
 
 // Text returns valid UTF-8 text of a boundary-biased length.
 func (g *G) Text() string {
